@@ -32,7 +32,7 @@ Filters == { [sets |-> <<>>, names |-> <<>>, groups |-> <<>>, files |-> <<>>],
              [sets |-> <<>>, names |-> <<"n">>, groups |-> <<>>, files |-> <<>>],
              [sets |-> << <<[name |-> "a", type |-> "EQ", alts |-> <<"1">>]>> >>, names |-> <<"n", "x">>, groups |-> <<"g">>, files |-> <<>>],
              [sets |-> << <<[name |-> "a", type |-> "EQ", alts |-> <<"">>]>>, <<[name |-> "r", type |-> "EQ", alts |-> <<"2">>]>> >>, names |-> <<>>, groups |-> <<>>, files |-> <<"f">>],
-             [sets |-> <<>>, names |-> <<>>, groups |-> <<"other">>, files |-> <<>>] }
+             [sets |-> <<>>, names |-> <<"n">>, groups |-> <<"other">>, files |-> <<>>] }
 
 (* a mid-stream failure happens before the server's group message: none of its rules is sent *)
 MkReq(rs, fm, strat, flt) ==
